@@ -146,9 +146,17 @@ def budget(case, cross):
 
 
 def close(a, b, case, cross, mult=1.0):
+    """a: statistics under test, b: reference. The scatter statistic M2 = mean |z_k - mu|^2 inherits the error d = amp*sx*sy of the
+    per-segment products through the differences z_k - mu, so its budget is 2*sqrt(M2)*(2d) + (2d)^2 — NOT amp*(sx*sy)^2:
+    a one-pass mean|z|^2 - |mu|^2 (error ~ eps*|mu|^2) is outside it when the scatter is small compared with the mean."""
     amp, sc = budget(case, cross)
     for i, (p, q, s) in enumerate(zip(a, b, sc)):
-        if not (abs(p - q) <= mult * amp * s) :
+        if i == 4:
+            d = mult * amp * math.sqrt(s)
+            ref = math.sqrt(max(float(q), 0.0)) if q == q else 0.0
+            if not (abs(p - q) <= 4 * d * ref + 4 * d * d + 1e-300) or p < 0:
+                return i
+        elif not (abs(p - q) <= mult * amp * s):
             return i
     return None
 
